@@ -173,6 +173,27 @@ class FG:
                 defined.add(v)
         self.block(ind, defined, 2, False)
         self.block(ind, defined, 2, False)
+        if self.flag("try_return"):
+            # a try statement whose body ends in the region's only return and whose handler falls through: a region that ends
+            # with it cannot be extracted as "return extracted(...)" (the handler path must reach the code behind it)
+            self.lines.append("%stry:" % pad)
+            # (the raise comes before any write: a region that writes and then raises would hand the handler a stale value
+            # after ANY extraction - outside the total-program fragment the behavioural oracle is stated for)
+            self.lines.append("%s    if %s > 2:" % (pad, params[0]))
+            self.lines.append("%s        raise ValueError(a)" % pad)
+            self.lines.append("%s    a = helper(a, 1)" % pad)
+            if self.b(2, 3):
+                self.lines.append("%s    return a + b" % pad)
+            self.lines.append("%sexcept ValueError:" % pad)
+            self.lines.append("%s    b = b + 1" % pad)
+            self.lines.append("%sc = c + b" % pad)
+        if self.flag("for_prebound"):
+            # a loop whose target has a value before the loop, may run zero times, and is read afterwards
+            self.lines.append("%si = 7" % pad)
+            self.lines.append("%sd = d + 1" % pad)
+            self.lines.append("%sfor i in range(%s - 3):" % (pad, params[0]))
+            self.lines.append("%s    b = b + i" % pad)
+            self.lines.append("%sc = c + i" % pad)
         if self.flag("planted"):
             # the same expression over a never-reassigned parameter at several places: after a nested compound statement
             # inside a block, and again outside that block (what similar=True has to treat as one value)
@@ -204,7 +225,7 @@ class FG:
         }
 
 
-FFLAGS = ["method", "comprehension", "comp_shadow", "while", "global_write", "break_continue", "early_return", "print_stmt", "docstring", "loop_else", "planted"]
+FFLAGS = ["method", "comprehension", "comp_shadow", "while", "global_write", "break_continue", "early_return", "print_stmt", "docstring", "loop_else", "planted", "try_return", "for_prebound"]
 
 
 @st.composite
